@@ -384,7 +384,7 @@ PROPS = {
                 "payload (muxer inputs), >= 4 goroutines mixing Demuxers and Muxers (concurrent); distinct by input bytes",
         "assumptions": [],
         "units": [
-            rap("aliasing", "^TestC16Aliasing$", 300, 6000, 8, 16),
+            rap("aliasing", "^TestC16Aliasing$", 300, 3000, 8, 16),
             rap("muxer_inputs", "^TestC16MuxerInputs$", 1000, 10000, 2, 8),
             rap("concurrent", "^TestC16Concurrent$", 25, 300, 4, 8, race=True),
         ],
